@@ -605,6 +605,9 @@ func (sr *sessRunner) randomValue(s *Stream) MV {
 	if s.Intn(14) == 0 { // a whole float64 beyond the int64 range (its decimal expansion is exact)
 		return MV{K: mkBig, N: 1, S: []string{"10000000000000000000", "9223372036854776000", "-10000000000000000000", "1000000000000000000000000"}[s.Intn(4)]} // written as the shortest decimal that reads back as the same float64
 	}
+	if s.Intn(14) == 0 { // integers a float64 cannot hold, handed over as Go int / int64 (or as a formula number)
+		return mNum([]int64{9007199254740993, -9007199254740993, 123456789012345679, 9223372036854775807, -9223372036854775807}[s.Intn(5)]) // (the model is int64 arithmetic: it has no |MinInt64|)
+	}
 	switch s.Intn(6) {
 	case 0:
 		return mNum(int64(s.Intn(50)))
